@@ -226,7 +226,7 @@ func (c *Compiled) RunContext(ctx context.Context) (err error) {
 		}
 		defer func() {
 			if verifOn && verifGate != nil {
-				defer verifGate("runnerSent")
+				verifGate("runnerExit")
 			}
 			if r := recover(); r != nil {
 				switch e := r.(type) {
